@@ -37,7 +37,11 @@ Inductive case :=
     what was written; 1: status; 2: extension on a secondary keyword (description "d" { p:e "x"; }) *)
 | CRead (kind : nat) (written read : list (list byte))
 (** determinism: canonical dumps of [n] loads of one text were all equal *)
-| CDet (n : nat) (all_equal : bool).
+| CDet (n : nat) (all_equal : bool)
+(** successive loads in one process: a text was loaded and dumped, then [others] other texts were
+    loaded; [reread]: the schema compiled first, read again, still gives that dump; [reload]: the
+    first text loaded again gives that dump *)
+| CInter (others : nat) (reread reload : bool).
 
 (** well-formedness the lexical model relies on, without the two conditions that delimit known
     findings (indentation stripping, Unicode white space in unquoted strings) *)
@@ -136,4 +140,5 @@ Definition classify (c : case) : verdict :=
     classify_gen (lists_eqb model read) (lists_eqb written read)
                  (match kind with 1 => Some kf_status | 2 => Some kf_ext2 | _ => None end)
   | CDet n all_equal => classify_gen all_equal all_equal None
+  | CInter _ reread reload => classify_gen (reread && reload) (reread && reload) None
   end.
